@@ -693,6 +693,9 @@ def run(ctx):
     from checks import ackid_sched
     ctx.require('ack_id_race_schedules', 30)
     ackid_sched.run_part(ctx, 'server', (ctx.budget or 30) * 0.12)
+    # call() waiting in one thread, its acknowledgement handled in another
+    ctx.require('call_wakeup_schedules', 30)
+    ackid_sched.run_call_part(ctx, (ctx.budget or 30) * 0.1)
     k = 0
     while not ctx.out_of_time() and not ctx.too_many_violations():
         run_case(ctx, k)
@@ -701,7 +704,7 @@ def run(ctx):
 
 
 def replay(ctx, w):
-    if w['witness'].get('part') == 'ack_id_race':
+    if w['witness'].get('part') in ('ack_id_race', 'call_wakeup'):
         from checks import ackid_sched
         return ackid_sched.replay(ctx, w)
     run_case(ctx, w['witness']['case_index'])
